@@ -151,15 +151,21 @@ def job_c12(args):
         #     from the float64 run of the same sample values by the output format's own resolution and the precision only
         it, ot = forced.get("dtypes", DTYPE_PAIRS[int(rg.integers(len(DTYPE_PAIRS)))])
         sd = float(forced.get("dscale", rg.choice([1.0, 1.0, 0.5, 2.0, float(rg.uniform(0.4, 1.9))])))
-        xt = 0.4 * x1 / max(1e-9, np.abs(x1).max()) + 0.05
+        # level: the typed output stays below 0.6 of full scale at the input samples (inter-sample peaks of the up-sampled tones and the
+        # filter's overshoot must not reach the integer formats' clipping level - clipping is not a linearity defect)
+        lvl = 1.0 / max(1.0, abs(sd))
+        xt = lvl * (0.4 * x1 / max(1e-9, np.abs(x1).max()) + 0.05)
         xi, xd = quantise(xt, it)
-        yt = R(xi, itype=it, otype=ot, scale=repr(sd)).astype(np.float64) / FS[ot]
+        inft, yt = S.run(c, xi, itype=it, otype=ot, scale=repr(sd))
+        yt = yt.astype(np.float64) / FS[ot]
+        out["dtype_clips"] = int(inft.get("r", {}).get("clips", 0))
         yd = R(xd)
         out["dtypes"] = (int(it), int(ot))
         out["dtype_scale"] = sd
         out["dtype_bound"] = S.out_resolution(ot) + abs(sd) * lim1(bits)
         out["gain_eff"] = sd * FS[ot] / FS[it]         # what _soxr_init receives as `multiplier`
-        peak("dtype_err", np.abs(yt - sd * yd) if len(yt) == len(yd) else np.array([np.inf]))
+        if out["dtype_clips"] == 0:
+            peak("dtype_err", np.abs(yt - sd * yd) if len(yt) == len(yd) else np.array([np.inf]))
 
         # --- shift covariance at the implementation period, broadband, beyond the start-up horizon: per sample, max norm
         per = S.plan_period(info)
@@ -323,6 +329,8 @@ def run(ctx):
         ctx.hist("plan_class", t["pclass"])
         ctx.hist("designed_stages", t["designed"])
         ctx.hist("datatype_pair", "%d->%d" % t["dtypes"])
+        if t.get("dtype_clips"):
+            ctx.hist("datatype_clause_not_evaluated", "typed run clipped")
         if t.get("dft_blocks_spanned"):
             ctx.hist("dft_blocks_spanned", "%d" % min(20, int(t["dft_blocks_spanned"])))
         if "LP" in t:
